@@ -1106,20 +1106,13 @@ func (s *Sched) abandon(unfinished int, blocked *task) bool {
 			continue
 		default:
 		}
-		all := true
-		for _, t := range s.tasks {
-			if s.taskDone(t) {
-				continue
-			}
-			st := goroutineState(t.goroutineID())
-			if !(strings.HasPrefix(st, "sync.") || strings.HasPrefix(st, "semacquire")) {
-				all = false
-				break
-			}
-		}
+		// A deadlock means that NO goroutine of the program can run any
+		// more - not only the tasks: a task may be waiting (WaitGroup) for
+		// goroutines the library started itself, and those may be busy.
+		all := !anyGoroutineAlive()
 		if all {
 			strikes++
-			if strikes >= 3 {
+			if strikes >= 5 {
 				return false
 			}
 			time.Sleep(20 * time.Millisecond)
@@ -1132,3 +1125,40 @@ func (s *Sched) abandon(unfinished int, blocked *task) bool {
 
 //go:norace
 func (s *Sched) taskDone(t *task) bool { return t.done }
+
+// anyGoroutineAlive reports whether some goroutine other than the caller and
+// the harness's own sleeping watchdog is runnable, running, in a system call
+// or waiting for I/O or a timer - anything but parked on a lock or channel.
+func anyGoroutineAlive() bool {
+	buf := make([]byte, 1<<18)
+	for {
+		n := runtime.Stack(buf, true)
+		if n < len(buf) {
+			buf = buf[:n]
+			break
+		}
+		buf = make([]byte, 2*len(buf))
+	}
+	blocks := strings.Split(string(buf), "\n\n")
+	for i, b := range blocks {
+		if i == 0 {
+			continue // the caller
+		}
+		if !strings.HasPrefix(b, "goroutine ") {
+			continue
+		}
+		j := strings.IndexByte(b, '[')
+		k := strings.IndexByte(b, ']')
+		if j < 0 || k < j {
+			continue
+		}
+		st := b[j+1 : k]
+		if strings.Contains(b, "main.watchdog") {
+			continue
+		}
+		if !blockedState(st) {
+			return true
+		}
+	}
+	return false
+}
